@@ -462,12 +462,14 @@ func ruleNoDerefOfFailedResult(w *World, r *Run, rule string, roots ...string) {
 				continue
 			}
 			for _, ev := range s.Events {
-				if ev.Kind != "fieldaddr" || ev.Recv == nil || ev.Recv.Kind != "call" || ev.Recv.Idx != 1 {
+				if ev.Kind != "fieldaddr" || ev.Recv == nil || ev.Recv.Kind != "call" || ev.Recv.Idx < 1 {
 					continue
 				}
 				n++
 				ct := ev.Recv
-				if !(strings.HasPrefix(ct.Name, "(*net/http.Client).") || strings.HasPrefix(ct.Name, "net/http.")) {
+				// calls whose pointer results are nil when they fail: net/http (nil response), ParseCheckpoint and note.Open
+				// (no checkpoint and — when the note did not even open — no note)
+				if !(ct.Idx == 1 && (strings.HasPrefix(ct.Name, "(*net/http.Client).") || strings.HasPrefix(ct.Name, "net/http."))) && ct.Name != cParse && ct.Name != cOpen {
 					continue
 				}
 				// the call's error result
@@ -484,7 +486,7 @@ func ruleNoDerefOfFailedResult(w *World, r *Run, rule string, roots ...string) {
 						bad = true
 					}
 				}
-				r.Check(!bad, rule, root+" | a response is not dereferenced on the path where its request failed", w.pos(ev.Pos), "the result of "+short(ct.Name)+" is dereferenced (field "+ev.Callee+") on a path where its error is non-nil: net/http returns a nil response with an error, so a transport failure panics instead of being counted as a failure")
+				r.Check(!bad, rule, root+" | a result is not dereferenced on the path where its call failed", w.pos(ev.Pos), "the result of "+short(ct.Name)+" is dereferenced (field "+ev.Callee+") on a path where its error is non-nil: the call returns nil results with an error (net/http a nil response; ParseCheckpoint a nil note when the bytes are not a signed note at all), so a failure panics instead of being handled")
 			}
 		}
 	}
